@@ -27,6 +27,8 @@ var runners = map[string]func(tags string, a []Val){
 	"ck.enc": runCkEnc, "ck.dec": runCkDec, "ck.crypt": runCkCrypt,
 
 	"nts.enc": runNtsEnc, "nts.dec": runNtsDec, "nts.resp": runNtsResp, "nts.pos": runNtsPos, "nts.req": runNtsReq, "nts.redec": runNtsRedec, "nts.fmt": runNtsFmt,
+
+	"dec.input": runDecInput,
 }
 
 func main() {
